@@ -105,6 +105,24 @@ SPECS = {
         1200,
         60000,
     ),
+    "C11": _rt(
+        "Coroutine payloads of one flavour never run in parallel",
+        "one runtime per seed: 2-8 coroutine payloads with heartbeats and non-atomic enter/exit sections (line-level pre-emption inside), adopted / service / executed from every context, "
+        "0-3 thread payloads that sleep for seconds or block forever; overlap detector, loop/run/thread identity, heartbeat lateness; "
+        "non-trivial = heartbeats ticked and (payloads arrived by more than two registration modes or a thread payload blocked); "
+        "distinct = distinct (multiset of (flavour, path), modes per flavour, #blocked threads, schedule-trace hash)",
+        1000,
+        50000,
+    ),
+    "C12": _rt(
+        "Runtime lifecycle: exclusive accept, shutdown always completes, restart possible",
+        "one simulated process per seed with a history of 1-4 ServiceRunner instances accepting one after the other: per runner a payload population (none, sleeping coroutines, blocked threads, mixed, "
+        "adoptions in flight), optionally a concurrent accept of another runner, and an end by shutdown() from a thread or a thread payload, SIGINT, a failing payload, or failure plus shutdown, "
+        "timed on/around the polling instants of the service loop; non-trivial = at least one runner reached 'running' and was ended; "
+        "distinct = distinct (sequence of (end kind, concurrent accept, population), schedule-trace hash)",
+        800,
+        40000,
+    ),
     "C09": _pl(
         "Periodic services act once per interval",
         "one world per seed: a shipped periodic service over recording pools, a generated timed environment script "
